@@ -57,6 +57,7 @@ ASSUMPTIONS = ["executor jobs atomic", "one gateway context at a time"]
 REQUIRED_PROBES = ["exit_before_saver_started", "exit_inside_open", "exit_inside_write", "exit_inside_close",
                    "exit_while_saver_sleeping", "connect_failed", "body_raised", "disconnect_failed",
                    "periodic_saves_96", "kind_sim", "kind_tcp", "kind_serial", "kind_mqtt", "registry_changed_in_body",
+                   "second_context_on_same_gateway",
                    "missing_file_on_entry"]
 SHRINK_LISTS = ("lines", "tapes")
 KINDS = ["sim", "tcp", "serial", "mqtt"]
@@ -134,7 +135,8 @@ def gen(seed: int, i: int, tier: str) -> dict:
         tapes["mqtt.disconnect.lat"] = tapes["disconnect.lat"]
     if rng.random() < 0.1:
         tapes["exec.cancel_skips"] = [rng.choice([0, 1]) for _ in range(6)]
-    return {"cfg": {"kind": kind, "init": init, "image": rand_snap(rng), "body": body, "duration": dur},
+    return {"cfg": {"kind": kind, "init": init, "image": rand_snap(rng), "body": body, "duration": dur,
+                    "reenter": rng.random() < 0.3, "reenter_for": rng.choice([0, 0.5, 2.5, 901.5])},
             "lines": lines, "tapes": tapes}
 
 
@@ -409,6 +411,49 @@ def _run(scn, cfg, w, res):
         res.violate(PROP, "save-cadence", "saver-stopped", f"last save ended {periodic[-1]['end']}, exit at {st['exit_begin']}")
     if len(periodic) >= 96:
         res.probes["periodic_saves_96"] += 1
+    # ---- entering the same gateway object a second time (a caller's reconnect loop) ----
+    if cfg.get("reenter") and exc is None and kind in ("sim", "tcp", "serial", "mqtt"):
+        res.probes["second_context_on_same_gateway"] += 1
+        w.tapes = Tapes({"exec.lat": [1, 0, 1, 0, 1]})
+        if kind in ("tcp", "serial"):
+            peer2 = SimPeer(w, "peer2")
+            install_network(w, peer2)
+            _serial_mod.open_serial_connection = make_open_serial_connection(w, peer2)
+        from aiomysensors.model.node import Node as _Node
+        st2 = {"exc": None, "done": False}
+
+        async def again():
+            try:
+                async with gw:
+                    await asyncio.sleep(0.5)
+                    gw.nodes[77] = _Node(77, 17, "2.2")
+                    await asyncio.sleep(cfg.get("reenter_for", 2.5))
+            except BaseException as e2:  # noqa: BLE001
+                st2["exc"] = e2
+            st2["done"] = True
+
+        t2 = loop.create_task(again())
+        loop.run_until_idle(5000)
+        if not st2["done"]:
+            res.violate(PROP, "second-context", "hang", "")
+            t2.cancel()
+            loop.run_until_idle(0)
+        elif st2["exc"] is not None:
+            res.violate(PROP, "second-context", f"raised:{type(st2['exc']).__name__}", repr(st2["exc"])[:200])
+        else:
+            left2 = loop.pending_tasks()
+            if left2:
+                names = sorted({getattr(x.get_coro(), "__qualname__", "?").split(".")[-1] for x in left2})
+                res.violate(PROP, "no-task-left-running", f"after-second-exit:{','.join(names)}", "")
+            img = w.disk.image(PATH)
+            w.disk.files["/sim/check.json"] = bytearray(img or b"")
+            loaded2: dict = {}
+            tt = loop.create_task(Persistence(loaded2, "/sim/check.json").load())
+            w.tapes = Tapes({})
+            loop.run_until_idle(10)
+            if not tt.done() or tt.exception() is not None or snapshot(loaded2) != snapshot(gw.nodes):
+                res.violate(PROP, "final-image", "differs-from-registry:second-context",
+                            f"want {sorted(gw.nodes)} got {sorted(loaded2) if tt.done() and not tt.exception() else tt}")
     res.ops = len(saves) + len(scn["lines"]) + 2
     if ph != "sleeping" or w.faults or len(periodic) >= 2:
         res.nontrivial_key = "C16:" + w.elog.digest()[:24]
